@@ -115,3 +115,59 @@ pub fn entity_cedar_json(e: &J) -> R<J> {
     }
     Ok(o)
 }
+
+// ---------------------------------------------------------------- Cedar schema syntax
+fn type_cedar(ty: &J) -> R<String> {
+    let a = ty.as_array().ok_or("type")?;
+    Ok(match a[0].as_str().ok_or("type tag")? {
+        "Bool" => "Bool".into(),
+        "Long" => "Long".into(),
+        "String" => "String".into(),
+        "Entity" => a[1].as_str().ok_or("entity name")?.to_string(),
+        "Set" => format!("Set<{}>", type_cedar(&a[1])?),
+        "Record" => attrs_cedar(&a[1])?,
+        "Ext" => a[1].as_str().ok_or("ext name")?.to_string(),
+        t => return err(format!("type_cedar: {t}")),
+    })
+}
+
+fn attrs_cedar(attrs: &J) -> R<String> {
+    let mut parts = vec![];
+    for (k, v) in as_obj(attrs)?.iter() {
+        let opt = if v[1].as_bool().ok_or("required")? { "" } else { "?" };
+        parts.push(format!("\"{k}\"{opt}: {}", type_cedar(&v[0])?));
+    }
+    Ok(format!("{{ {} }}", parts.join(", ")))
+}
+
+/// abstract schema -> the human-readable Cedar schema syntax (independent renderer)
+pub fn schema_cedar_text(sc: &J) -> R<String> {
+    let mut s = String::new();
+    for (name, et) in as_obj(&sc["ets"])?.iter() {
+        let en = et["enum"].as_array().ok_or("enum")?;
+        if !en.is_empty() {
+            let ids: Vec<String> = en.iter().map(|x| format!("\"{}\"", x.as_str().unwrap_or(""))).collect();
+            s.push_str(&format!("entity {name} enum [{}];\n", ids.join(", ")));
+            continue;
+        }
+        let parents: Vec<String> = et["memberOf"].as_array().ok_or("memberOf")?.iter().filter_map(|x| x.as_str().map(String::from)).collect();
+        let inp = if parents.is_empty() { String::new() } else { format!(" in [{}]", parents.join(", ")) };
+        let tags = if et["tags"] != json!(["none"]) { format!(" tags {}", type_cedar(&et["tags"])?) } else { String::new() };
+        s.push_str(&format!("entity {name}{inp} {}{tags};\n", attrs_cedar(&et["attrs"])?));
+    }
+    for (id, a) in as_obj(&sc["acts"])?.iter() {
+        let groups: Vec<String> = a["memberOf"].as_array().ok_or("memberOf")?.iter().map(|x| format!("\"{}\"", x.as_str().unwrap_or(""))).collect();
+        let inp = if groups.is_empty() { String::new() } else { format!(" in [{}]", groups.join(", ")) };
+        if a["applies"].as_bool().ok_or("applies")? {
+            let ps: Vec<String> = a["principals"].as_array().ok_or("principals")?.iter().filter_map(|x| x.as_str().map(String::from)).collect();
+            let rs: Vec<String> = a["resources"].as_array().ok_or("resources")?.iter().filter_map(|x| x.as_str().map(String::from)).collect();
+            s.push_str(&format!(
+                "action \"{id}\"{inp} appliesTo {{ principal: [{}], resource: [{}], context: {} }};\n",
+                ps.join(", "), rs.join(", "), attrs_cedar(&a["context"])?
+            ));
+        } else {
+            s.push_str(&format!("action \"{id}\"{inp};\n"));
+        }
+    }
+    Ok(s)
+}
